@@ -45,7 +45,7 @@ ASSUMPTIONS = [
 ]
 BOUNDS = "BMC from reset; quick: mps 8, handler level K=15 (start + latency + a full packet + stalls), request level " \
          "free tx.ready K=14 (first packet) and, with tx.ready tied to 1, K=24 (two packets + ZLP / a retry + status); thorough: mps 8/16 required (handler K=20/25 incl. a second request, request " \
-         "level free K=18, tx.ready=1 layer K=34 (three packets + retry) at mps 8; mps 16 K=44 best effort), mps 32/64 best effort (K=mps+8, assertions only)"
+         "level free K=18, tx.ready=1 layer K=28 (two to three packets + retry) at mps 8; mps 16 K=44 best effort), mps 32/64 best effort (K=mps+8, assertions only)"
 OUTSIDE = "descriptors longer than 2*mps+3 bytes except in the suite collection; foreign ACK handshakes (for other " \
           "endpoints) while one of our packets is unacknowledged (C08/C14 territory; observed: a lost ACK leaves " \
           "expecting_ack set across the status stage, so a foreign ACK early in the NEXT GET_DESCRIPTOR advances " \
@@ -267,8 +267,8 @@ def queries(tier):
         hcfg += [(v, "sparse", 16, 25) for v in ("block", "distributed", "mux")]
         hcfg += [("block", "suite", 8, 16), ("distributed", "suite", 8, 16), ("block", "dense", 32, 40),
                  ("distributed", "sparse", 32, 40), ("block", "sparse", 64, 72), ("distributed", "dense", 64, 72)]
-        rcfg = [(False, "sparse", 8, False, 34), (True, "sparse", 8, False, 34), (False, "dense", 8, True, 34),
-                (True, "dense", 8, True, 34), (False, "sparse", 16, False, 44)]
+        rcfg = [(False, "sparse", 8, False, 28), (True, "sparse", 8, False, 28), (False, "dense", 8, True, 28),
+                (True, "dense", 8, True, 28), (False, "sparse", 16, False, 44)]
     stmt = ["payload", "first", "last", "gap", "zlp", "stall_exists", "data_nonexistent", "no_response", "spurious",
             "too_long"]
     for variant, kind, mps, K in hcfg:
